@@ -107,7 +107,7 @@ class JetEval:
             if op in ("+", "*", "&"):
                 return v
             if op == "!":
-                return sp.Not(v)
+                return ("not", v) if isinstance(v, tuple) else sp.Not(v)
             raise Unknown("unary %s" % op)
         if k == "BinaryOperator":
             op = n.get("op")
@@ -138,7 +138,7 @@ class JetEval:
 
     def as_number(self, x):
         """a comparison used arithmetically is 1 / 0 in this world"""
-        if isinstance(x, tuple) and x[0] in ("cmp", "and", "or"):
+        if isinstance(x, tuple) and x[0] in ("cmp", "and", "or", "not"):
             node = x[4] if x[0] == "cmp" and len(x) > 4 else None
             return sp.Integer(1) if self.decide(x, node) else sp.Integer(0)
         return x
@@ -349,6 +349,8 @@ class JetEval:
                 pass
             self.sign_conds.append(key)
             raise NeedSign(key)
+        if isinstance(c, tuple) and c[0] == "not":
+            return not self.decide(c[1], n)
         if isinstance(c, tuple) and c[0] == "and":
             return self.decide(c[1], n) and self.decide(c[2], n)
         if isinstance(c, tuple) and c[0] == "or":
